@@ -93,7 +93,15 @@ def _replay_child(L, cand, conn):
     try:
         conn.send(("ok", L.replay(cand)))
     except Exception as e:
-        conn.send(("exc", repr(e)))
+        # the replay runs the real code on numbers: an exception whose innermost frame is library code is the library
+        # failing on the replayed scenario
+        fr = traceback.extract_tb(e.__traceback__)
+        root = os.path.realpath(os.environ.get("QUCUMBER_REPO", "/repo"))
+        if fr and os.path.realpath(fr[-1].filename).startswith(root + os.sep):
+            conn.send(("ok", {"reproduced": True, "note": "the library raised %s: %s at %s:%s on the replayed scenario"
+                              % (type(e).__name__, str(e)[:200], os.path.basename(fr[-1].filename), fr[-1].lineno)}))
+        else:
+            conn.send(("exc", repr(e)))
     conn.close()
 
 
@@ -226,6 +234,15 @@ def _worker(job):
             ctx._rec("run/the library refuses an input inside the property's domain", "violated", "harness", 0.0,
                      {"why": "%s: %s" % (type(e).__name__, str(e)[:300]), "where": "%s:%s" % (os.path.basename(last.filename), last.lineno)},
                      witness={"exception": repr(e)[:300]})
+        elif in_lib and isinstance(e, (IndexError, RuntimeError, ZeroDivisionError)) and not isinstance(e, alg.Unmodelled):
+            # an operation of the library itself failed (the innermost frame is library code calling into torch / numpy) on
+            # inputs the harness built inside the property's domain.  It could still be an artefact of running on symbolic
+            # values, so it only counts when the replay on the real code with numbers reproduces a failure; otherwise the
+            # configuration is undecided
+            ctx._rec("run/an operation of the library fails on an input inside the property's domain", "violated", "harness", 0.0,
+                     {"why": "%s: %s" % (type(e).__name__, str(e)[:300]), "where": "%s:%s" % (os.path.basename(last.filename), last.lineno)},
+                     witness={"exception": repr(e)[:300]})
+            ctx.obls[-1]["needs_replay"] = True
         else:
             ctx.undecided("run", "configuration raised %s: %s | %s" % (type(e).__name__, str(e)[:200], tb[-1200:].replace("\n", " / ")))
     return {"cfg": cfg, "canary": canary, "obls": ctx.obls, "functions": sorted(ctx.functions),
@@ -354,6 +371,11 @@ def run_check(prop, tier, seed, jobs=None):
                     o = cand
                     break
         o["replayed"] = rep
+        if o.get("needs_replay") and not (rep and rep.get("reproduced")):
+            for x in os_:
+                x["status"] = "undecided"
+                x["detail"] = {"why": "not reproduced on the real code with numbers; left undecided", "was": x.get("detail")}
+            continue
         kf = _match_known(known, prop, o, rep)
         if kf is not None:
             known_hits.append((kf, o))
@@ -361,6 +383,8 @@ def run_check(prop, tier, seed, jobs=None):
         path = oblmod.write_replay(prop, o, extra={"group_size": len(os_), "others": [x["name"] for x in os_[1:20]]})
         tail = "" if (rep and rep.get("reproduced")) else " no-failing-input-found"
         reported.append((o, path, tail))
+    viol = [o for o in obls if o["status"] == "violated"]
+    und = [o for o in obls if o["status"] == "undecided"]
     # labelled bounded stand-in (concrete driver on the real code); never counted as proved
     bounded_res = None
     try:
